@@ -228,13 +228,37 @@ def gen_case(world, tier, prop):
     d['id'] = new_id()
     return d
 
-  root = partial(0)
+  srng = world.stream('sig')
+  spec = None
+  if srng.random() < 0.3:
+    # the ROOT Partial configures a callable with a GENERATED signature (every
+    # parameter kind, with / without defaults, every callable kind)
+    spec = stubs.gen_spec(srng, 'f0', kinds=('func', 'cls', 'cmeth', 'inst', 'part', 'data'))
+    sv = stubs.SigView(stubs.install([spec])['f0'])
+    npos = srng.randint(0, sv.P) if srng.random() < 0.6 else 0
+    args = [dyn_child(1) for _ in range(npos)]
+    if sv.va and npos == sv.P and srng.random() < 0.6:
+      args += [dyn_child(1) for _ in range(srng.randint(1, 2))]
+    kwargs = {}
+    for nm in list(sv.pk) + list(sv.ko):
+      if nm in sv.pk and sv.index_of[nm] < npos:
+        continue
+      if srng.random() < 0.45:
+        kwargs[nm] = dyn_child(1)
+    if sv.vk and srng.random() < 0.3:
+      kwargs['free'] = dyn_child(1)
+    root = {'node': {'btype': 'Partial', 'fn': 'f0', 'args': args, 'kwargs': kwargs},
+            'id': new_id()}
+    names = list(sv.pk) + list(sv.ko) + (['free', 'free2'] if sv.vk else [])
+  else:
+    root = partial(0)
   defs.append(root)
   ops = [{'op': 'build'}]
   nb = 1
   rootfn = root['node']['fn']
-  names = {'n0': ['x', 'y', 'z'], 'n1': ['y', 'extra', 'free'], 'N2': ['x', 'k'],
-           'N3': ['x', 'y'], 'n4': [], 'n5': ['x'], 'n6': ['x', 'y', 'k']}[rootfn]
+  if spec is None:
+    names = {'n0': ['x', 'y', 'z'], 'n1': ['y', 'extra', 'free'], 'N2': ['x', 'k'],
+             'N3': ['x', 'y'], 'n4': [], 'n5': ['x'], 'n6': ['x', 'y', 'k']}[rootfn]
   for _ in range(rng.randint(2, 6)):
     if rng.random() < 0.15:
       ops.append({'op': 'build'})
@@ -262,8 +286,11 @@ def gen_case(world, tier, prop):
     plan['reenter'] = {'uid': frng.choice(uids)}
   if frng.random() < 0.2:
     plan['nested_build'] = True
-  return {'defs': defs, 'root': {'share': root['id']}, 'ops': ops,
+  case = {'defs': defs, 'root': {'share': root['id']}, 'ops': ops,
           'decoys': rng.random() < 0.5, 'plan': plan}
+  if spec is not None:
+    case['spec'] = spec
+  return case
 
 
 def _factory_uids(d, acc=None):
@@ -316,7 +343,7 @@ def features(case):
 
 def run(case):
   rec = stubs.reset()
-  fns = stubs.install(BUILD_STUBS)
+  fns = stubs.install(BUILD_STUBS + ([case['spec']] if case.get('spec') else []))
   fns['z0'] = stubmod.z0
   svs = {}
   mk_m = M.Maker('model', fns, svs)
